@@ -29,6 +29,8 @@ def bounds(tier):
                 region_alternatives=REGION_ALTS, deviation_bound=2,
                 pairs=("(region length, rotation of its plasmid), (permutation, rotation of one plasmid)" if tier == "quick"
                        else "all pairs of axes; rotation x rotation over structure-window rotations"),
+                content_menu="6 enzymes, k=2: homopolymers, repeats, GC/AT-only, partial sites, codons, junction words at either end, mixed case, ambiguity codes -- in each body, backbone, placeholder",
+                sizes="3 enzymes: bodies/backbones/placeholders of 257..3001 (10007 in thorough) nt; chains of 4..8 modules with rotated / reversed argument orders",
                 overhang_words="BsaI, BbsI, BsmBI, BspQI, k=1: every word in each junction role (quick) / every ordered pair (thorough)",
                 content_exhaustive=dict(ov=[1, 2], overhang_assignments="all over ACGT^ov for which the model predicts the full chain",
                                         body_len=2 if tier == "quick" else 3,
@@ -38,7 +40,7 @@ def bounds(tier):
 def goals(tier):
     return ["every-enzyme:" + n for n, _ in gen.enzymes()] + ["k=3", "origin-in-site", "origin-in-filler", "origin-in-overhang", "origin-in-target",
             "origin-in-backbone", "non-identity-permutation", "palindromic-junction", "min-body", "empty-backbone",
-            "empty-placeholder", "content-exhaustive", "every-overhang-word", "lower-case-participant"]
+            "empty-placeholder", "content-exhaustive", "every-overhang-word", "lower-case-participant", "awkward-content", "large-plasmid", "long-chain"]
 
 
 def base_points(tier):
@@ -61,6 +63,10 @@ def units(tier):
             for k in (1, 2):
                 for w0 in ["".join(t) for t in itertools.product("ACGT", repeat=g.ov)]:
                     us.append(("content", (name, k, w0)))
+    for name in ("BsaI", "BbsI", "BsmBI", "BspQI", "FokI", "BspD6I"):
+        us.append(("menu", name))
+    for name in ("BsaI", "BbsI", "BtgZI"):
+        us.append(("large", name))
     # every overhang word of the 3- and 4-nt kit geometries in each junction role (k = 1); thorough: every pair
     for name in ("BsaI", "BbsI", "BsmBI", "BspQI"):
         g = gen.geometry_of(gen.enzyme(name))
@@ -132,6 +138,10 @@ def run_unit(unit, st, tier):
         return unit_content(st, unit[1], tier)
     if unit[0] == "words":
         return unit_words(st, unit[1], tier)
+    if unit[0] == "menu":
+        return unit_menu(st, unit[1], tier)
+    if unit[0] == "large":
+        return unit_large(st, unit[1], tier)
     name, k, scheme, pj = unit[1]
     g = gen.geometry_of(gen.enzyme(name))
     base = asm.base_scenario(name, k, scheme=scheme, ovscheme=scheme, palindromic_junction=pj)
@@ -281,6 +291,100 @@ def unit_content(st, arg, tier):
             st.nontrivial += 1
             st.goal("content-exhaustive")
     st.sample(dict(base, note="content-exhaustive family"))
+
+
+def unit_menu(st, name, tier):
+    """awkward contents: each menu word as body of each module, as vector backbone, as module backbone and as placeholder (k = 2),
+    at rotation 0 and with the plasmid holding it rotated to three places"""
+    g = gen.geometry_of(gen.enzyme(name))
+    base = asm.base_scenario(name, 2)
+    if base is None:
+        st.filtered += 1
+        return
+    o = base["ovs"]
+    for where in ("body0", "body1", "vbb", "mbb0", "vph"):
+        j = {"body0": 0, "body1": 1}.get(where)
+        o5, o3 = (o[j], o[j + 1]) if j is not None else (o[2], o[0])
+        for word in gen.content_menu(g, o5, o3):
+            scn = dict(base)
+            if j is not None:
+                scn["bodies"] = [word if i == j else b for i, b in enumerate(base["bodies"])]
+            elif where == "vbb":
+                scn["vbb"] = word
+            elif where == "vph":
+                scn["vph"] = word
+            else:
+                scn["mbbs"] = [word] + list(base["mbbs"][1:])
+            vec, mods = asm.pieces_to_plasmids(scn)
+            if set("".join([vec] + mods).upper()) - set("ACGT"):
+                # ambiguity codes in a retained region: the ligation model is defined on the letters as they are
+                pass
+            if any(rm.count_sites(p, g) != 2 for p in [vec] + mods) or not asm.well_formed(scn)[0]:
+                st.filtered += 1
+                continue
+            which = 0 if where in ("vbb", "vph") else (j + 1 if j is not None else 1)
+            n = len(([vec] + mods)[which])
+            for r in sorted({0, 1, n // 2, n - 1}):
+                s2 = dict(scn, rot=[r if x == which else 0 for x in range(3)])
+                check(st, s2)
+                st.scenario("product", None)
+                st.nontrivial += 1
+                st.goal("awkward-content")
+    st.sample(dict(base, note="content menu"))
+
+
+def unit_large(st, name, tier):
+    """sizes: long bodies / backbones / placeholders (up to several kb) and long chains (k up to 8 for 4-nt overhangs)"""
+    g = gen.geometry_of(gen.enzyme(name))
+    forbid = [g.site]
+    base = asm.base_scenario(name, 2)
+    sizes = [257, 1024, 3001] if tier == "quick" else [257, 1024, 3001, 10007]
+    for where in ("body0", "vbb", "mbb1", "vph"):
+        for size in sizes:
+            w = gen.long_word(size, seed=size, forbid=forbid)
+            scn = dict(base)
+            if where == "body0":
+                scn["bodies"] = [w, base["bodies"][1]]
+            elif where == "vbb":
+                scn["vbb"] = w
+            elif where == "vph":
+                scn["vph"] = w
+            else:
+                scn["mbbs"] = [base["mbbs"][0], w]
+            vec, mods = asm.pieces_to_plasmids(scn)
+            if any(rm.count_sites(p, g) != 2 for p in [vec] + mods) or not asm.well_formed(scn)[0]:
+                st.filtered += 1
+                continue
+            which = {"body0": 1, "vbb": 0, "mbb1": 2, "vph": 0}[where]
+            n = len(([vec] + mods)[which])
+            for r in sorted({0, 1, 7, n // 3, n // 2, n - 5, n - 1}):
+                check(st, dict(scn, rot=[r if x == which else 0 for x in range(3)]))
+                st.scenario("product", None)
+                st.nontrivial += 1
+                st.goal("large-plasmid")
+    # long chains
+    words = gen.overhang_words(g.ov, 9, 2)
+    for k in range(4, min(8, len(words) - 1) + 1):
+        ovs = words[: k + 1]
+        bodies = [gen.word(i, 3 + 5 * i, 3 + (i % 4), forbid) for i in range(k)]
+        mbbs = [gen.word(i + 1, 9 + 3 * i, 2 + (i % 3), forbid) for i in range(k)]
+        fills = [[gen.word(0, 3 + i, g.off, forbid), gen.word(0, 17 + i, g.off, forbid)] for i in range(k)]
+        scn = dict(enz=name, k=k, ovs=ovs, bodies=bodies, mbbs=mbbs, fills=fills, vbb=base["vbb"], vph=base["vph"], vfill=base["vfill"],
+                   rot=[0] * (k + 1), perm=list(range(k)))
+        vec, mods = asm.pieces_to_plasmids(scn)
+        if any(rm.count_sites(p, g) != 2 for p in [vec] + mods) or not asm.well_formed(scn)[0]:
+            st.filtered += 1
+            continue
+        perms = [list(range(k)), list(reversed(range(k)))] + [list(range(i, k)) + list(range(i)) for i in range(1, k)] + \
+                [[(i * 3) % k for i in range(k)] if k % 3 else list(range(1, k)) + [0]]
+        for p in perms:
+            if sorted(p) != list(range(k)):
+                continue
+            check(st, dict(scn, perm=p))
+            st.scenario("product", None)
+            st.nontrivial += 1
+            st.goal("long-chain")
+    st.sample(dict(base, note="large plasmids and long chains"))
 
 
 def unit_words(st, arg, tier):
